@@ -18,13 +18,21 @@ const c01Yaml = "patterns:\n  anti_evasion:\n    unix: '[q]*'\n    windows: '[w]
 var c01Cfg = ref.CmdCfg{UnixEvasion: "[q]*", UnixSuffix: `\s`, UnixNoSpace: "n", WindowsEvasion: "[w]*", WindowsSuffix: ";", WindowsNoSpace: "m"}
 
 func c01Tree() core.Tree {
-	return core.Tree{"regex-assembly/toolchain.yaml": c01Yaml, "regex-assembly/include/": "", "regex-assembly/exclude/": ""}
+	return core.Tree{"regex-assembly/toolchain.yaml": c01Yaml, "regex-assembly/include/": "", "regex-assembly/exclude/": "",
+		"regex-assembly/include/incd.ra": c01Files["incd"]}
 }
+
+// c01Files: include files of the structural stratum (the file has a definition of its own with the name the programs use)
+var c01Files = ref.Files{"incd": "##!> define d i\n{{d}}a\nyb\n"}
 
 // c01Eval evaluates one program; nil = holds (or outside the model).
 func c01Eval(root *inproc.Root, p Prog, st *pcStats) *pcFail {
 	text := p.Text()
-	want, err := ref.Plain(text, c01Cfg)
+	resolved, err := ref.Resolve(text, c01Files)
+	var want string
+	if err == nil {
+		want, err = ref.Plain(resolved, c01Cfg)
+	}
 	if err != nil {
 		if st != nil {
 			st.Outside++
@@ -77,9 +85,9 @@ func c01Spec(r *core.Run) sweepSpec {
 		return sweepSpec{Tokens: entryTokens, One: 2, Two: 1, StructLen: 4, FullHdr: 1}
 	}
 	if r.Thorough() {
-		return sweepSpec{Tokens: entryTokens, One: 4, Two: 2, Three: true, StructLen: 6, Struct2: 5, Mixed: true, FullHdr: 2}
+		return sweepSpec{Tokens: entryTokens, One: 4, Two: 2, Three: true, StructLen: 6, Struct2: 5, PreSuf: true, Mixed: true, FullHdr: 2}
 	}
-	return sweepSpec{Tokens: entryTokens, One: 3, Two: 2, Three: false, StructLen: 5, Struct2: 4, Mixed: true, FullHdr: 2}
+	return sweepSpec{Tokens: entryTokens, One: 3, Two: 2, Three: false, StructLen: 5, Struct2: 4, PreSuf: true, Mixed: true, FullHdr: 2}
 }
 
 // stratum D: word sets that make the optimiser factor common prefixes and suffixes into several groups,
